@@ -14,6 +14,7 @@ def c01(A, ctx, tier):
     control.r_cert(A, ctx, dict(scope, floor=20))
     control.r_fresh(A, ctx, dict(scope, floor=12))
     control.r_retstop(A, ctx, dict(scope, floor=6))
+    control.r_gradpoint(A, ctx, dict(scope, floor=10))
     control.r_anderson(A, ctx, scope)
     control.r_lbfgs(A, ctx, scope)
     formulas.r_cert_scale(A, ctx, dict(exempt=EX01, floor=3))
@@ -87,6 +88,7 @@ def c05(A, ctx, tier):
 def c17(A, ctx, tier):
     history.r_hist(A, ctx, dict(exempt={"LBFGS"}, floor=12))
     control.r_retstop(A, ctx, dict(floor=6))
+    control.r_gradpoint(A, ctx, dict(floor=15))
     history.r_niter(A, ctx, dict(floor=3))
     control.r_zero(A, ctx, dict(exempt={}, floor=7), rule="R-ZERO-BOUND", want="bound")
     return dict(explanation="diagnostics: one history entry per completed outer "
